@@ -575,14 +575,16 @@ async fn build_store(dir: &Path, rng: &mut Rng, nops: usize, with_ckpt: bool, nk
     // timestamps of the records as written; which operation produced each frame of state.wal
     let wal = files.iter().find(|f| f.0 == 0).map(|f| f.2.clone()).unwrap_or_default();
     let (fr, _) = frames_of(&wal);
-    let mut frame_op = vec![]; let mut fi = 0;
+    let mut frame_op = vec![]; let mut fi = 0; let mut ctr = 0u64;
     for (i, o) in ops.iter_mut().enumerate() {
+        // every operation except a checkpoint consumes a transaction id
+        if !matches!(o, Op::Checkpoint(_)) { ctr += 1; }
         let writes = match o { Op::Upsert(..) | Op::Delete(..) => true, Op::Batch(..) => true, _ => false };
         if !writes { continue; }
         if fi >= fr.len() { break; }
         let e: WalEntry = postcard::from_bytes(&wal[fr[fi].0 + 4..fr[fi].0 + 4 + fr[fi].1]).ok()?;
-        // an empty batch writes nothing: match on the transaction id (= position of the op + 1)
-        if e.transaction_id != i as u64 + 1 { continue; }
+        // an empty batch writes nothing: match the record on its transaction id
+        if e.transaction_id != ctr { continue; }
         match o { Op::Upsert(ts, ..) | Op::Delete(ts, ..) | Op::Batch(ts, ..) => *ts = e.timestamp, _ => {} }
         frame_op.push(i); fi += 1;
     }
